@@ -11,6 +11,7 @@
 //              3 gtx/vec_swizzle free functions  zyx(v)
 //   C17_TMASK  element types in this unit: 1 float, 2 double, 4 int, 8 uint, 16 int8, 32 bool
 //   C17_QMASK  1 packed_highp, 2 aligned_highp (needs GLM_FORCE_INTRINSICS)
+//   C17_SMASK  letter sets in this unit: 1 xyzw, 2 rgba, 4 stpq (default all)
 #include "vf.hpp"
 #include "ref.hpp"
 #include <glm/glm.hpp>
@@ -65,9 +66,9 @@ namespace det {
 	template<class V,class=void> struct m_##NAME : std::false_type{}; \
 	template<class V> struct m_##NAME<V, std::void_t<decltype(C17_ACC(std::declval<const V&>(),NAME))> > : std::true_type{};
 #if C17_FORM==3
-C17_FREE_LIST_L4(X)
+C17_FREE_LIST_ALL(X)
 #else
-C17_LIST_L4(X)
+C17_LIST_ALL(X)
 #endif
 #undef X
 // is an operator-swizzle proxy convertible to its vector (i.e. does it have operator()())
@@ -76,42 +77,34 @@ template<class S> struct callable<S, std::void_t<decltype(std::declval<const S&>
 }
 
 // ---------------------------------------------------------------- the generated accesses
-// rd: returns N (>0) on success, 0 accessor missing, -1 proxy exists but has no conversion to vec, -2 id not generated for this L
-template<class V> static int rd(const V& v,int id,typename VT<V>::elem* out){
-	typedef typename VT<V>::elem T; constexpr glm::qualifier Q=VT<V>::q; constexpr int L=VT<V>::len; (void)L;
+enum { K_READ=0, K_SET=1, K_ADD=2, K_SUB=3, K_MUL=4, K_DIV=5, K_SCALAR=6, K_ALIAS_SET=7, K_ALIAS_ADD=8, K_ALIAS_SUB=9, K_ALIAS_MUL=10, K_ALIAS_DIV=11, K_SWZ_RHS=12 };
+static const char* kind_name(int k){ static const char* n[]={"read","assign","+=","-=","*=","/=","assign-scalar","self-assign","self+=","self-=","self*=","self/=","assign-from-swizzle"}; return n[k]; }
+// classes (aligned?, L, N) of operator-form reads whose instantiation is a hard compile error inside glm: established per unit by the
+// compile probe in fw/props/C17.py (written to C17_AVAIL_INC as the body of this function); all other classes return true
+template<class T> constexpr bool c17_read_ok(bool aligned,int L,int N){
+#ifdef C17_AVAIL_INC
+#	include C17_AVAIL_INC
+#endif
+	return true;
+}
+// rd: returns N (>0) on success, 0 accessor missing, -1 read does not compile (proxy without conversion to vec, or the compile
+// probe of this unit found that instantiating the conversion is an error), -2 id not generated for this L
 #if C17_FORM==2
-#	define X(ID,NAME) case ID: { constexpr int N=(int)sizeof(#NAME)-1; \
+#	define C17_RD(ID,NAME) case ID: { constexpr int N=(int)sizeof(#NAME)-1; typedef typename VT<V>::elem T; constexpr glm::qualifier Q=VT<V>::q; \
 		if constexpr(!det::m_##NAME<V>::value) return 0; \
 		else if constexpr(!det::callable<decltype(v.NAME)>::value) return -1; \
+		else if constexpr(!c17_read_ok<T>(Q==glm::aligned_highp,VT<V>::len,N)) return -1; \
 		else { glm::vec<N,T,Q> r = v.NAME; memcpy(out,&r,N*sizeof(T)); return N; } }
 #else
-#	define X(ID,NAME) case ID: { constexpr int N=(int)sizeof(#NAME)-1; \
+#	define C17_RD(ID,NAME) case ID: { constexpr int N=(int)sizeof(#NAME)-1; typedef typename VT<V>::elem T; constexpr glm::qualifier Q=VT<V>::q; \
 		if constexpr(!det::m_##NAME<V>::value) return 0; \
 		else { glm::vec<N,T,Q> r = C17_ACC(v,NAME); memcpy(out,&r,N*sizeof(T)); return N; } }
 #endif
-#if C17_FORM==3
-	if constexpr(L==1){ switch(id){ C17_FREE_LIST_L1(X) default: return -2; } }
-	else if constexpr(L==2){ switch(id){ C17_FREE_LIST_L2(X) default: return -2; } }
-	else if constexpr(L==3){ switch(id){ C17_FREE_LIST_L3(X) default: return -2; } }
-	else { switch(id){ C17_FREE_LIST_L4(X) default: return -2; } }
-#else
-	if constexpr(L==2){ switch(id){ C17_LIST_L2(X) default: return -2; } }
-	else if constexpr(L==3){ switch(id){ C17_LIST_L3(X) default: return -2; } }
-	else if constexpr(L==4){ switch(id){ C17_LIST_L4(X) default: return -2; } }
-	else return -2;
-#endif
-#undef X
-}
-
-enum { K_READ=0, K_SET=1, K_ADD=2, K_SUB=3, K_MUL=4, K_DIV=5, K_SCALAR=6, K_ALIAS_SET=7, K_ALIAS_ADD=8, K_ALIAS_SUB=9, K_ALIAS_MUL=10, K_ALIAS_DIV=11, K_SWZ_RHS=12 };
-static const char* kind_name(int k){ static const char* n[]={"read","assign","+=","-=","*=","/=","assign-scalar","self-assign","self+=","self-=","self*=","self/=","assign-from-swizzle"}; return n[k]; }
 
 #if C17_FORM==2
 // wr: 1 done, 0 accessor missing, -1 not applicable (kind needs N==L), -2 id not generated, -3 proxy of a non-repeating word has no operator=(vec)
-template<class V> static int wr(V& v,int id,int kind,const typename VT<V>::elem* rhs){
-	typedef typename VT<V>::elem T; constexpr glm::qualifier Q=VT<V>::q; constexpr int L=VT<V>::len;
-	constexpr bool arith=!std::is_same<T,bool>::value;
-#	define X(ID,NAME) case ID: { constexpr int N=(int)sizeof(#NAME)-1; typedef glm::vec<N,T,Q> R; \
+#	define C17_WR(ID,NAME) case ID: { constexpr int N=(int)sizeof(#NAME)-1; typedef typename VT<V>::elem T; constexpr glm::qualifier Q=VT<V>::q; constexpr int L=VT<V>::len; \
+		constexpr bool arith=!std::is_same<T,bool>::value; typedef glm::vec<N,T,Q> R; \
 		if constexpr(!det::m_##NAME<V>::value) return 0; \
 		else if constexpr(!std::is_assignable<decltype((v.NAME)),const R&>::value) return -3; \
 		else { R r; memset((void*)&r,0,sizeof r); memcpy((void*)&r,rhs,N*sizeof(T)); \
@@ -128,11 +121,49 @@ template<class V> static int wr(V& v,int id,int kind,const typename VT<V>::elem*
 			case K_ALIAS_MUL: if constexpr(N==L && arith){ v.NAME *= v; return 1; } else return -1; \
 			case K_ALIAS_DIV: if constexpr(N==L && arith){ v.NAME /= v; return 1; } else return -1; \
 			default: return -1; } } }
-	if constexpr(L==2){ switch(id){ C17_WLIST_L2(X) default: return -2; } }
-	else if constexpr(L==3){ switch(id){ C17_WLIST_L3(X) default: return -2; } }
-	else if constexpr(L==4){ switch(id){ C17_WLIST_L4(X) default: return -2; } }
+#endif
+#ifndef C17_SMASK
+#	define C17_SMASK 7
+#endif
+#if C17_SMASK & 1
+#	define C17_RD0(ID,NAME) C17_RD(ID,NAME)
+#	define C17_WR0(ID,NAME) C17_WR(ID,NAME)
+#else
+#	define C17_RD0(ID,NAME)
+#	define C17_WR0(ID,NAME)
+#endif
+#if C17_SMASK & 2
+#	define C17_RD1(ID,NAME) C17_RD(ID,NAME)
+#	define C17_WR1(ID,NAME) C17_WR(ID,NAME)
+#else
+#	define C17_RD1(ID,NAME)
+#	define C17_WR1(ID,NAME)
+#endif
+#if C17_SMASK & 4
+#	define C17_RD2(ID,NAME) C17_RD(ID,NAME)
+#	define C17_WR2(ID,NAME) C17_WR(ID,NAME)
+#else
+#	define C17_RD2(ID,NAME)
+#	define C17_WR2(ID,NAME)
+#endif
+#include "C17_swz_sw.inc"
+template<class V> static int rd(const V& v,int id,typename VT<V>::elem* out){
+	constexpr int L=VT<V>::len;
+#if C17_FORM==3
+	if constexpr(L==1) return c17_rd_L1<V>(v,id,out);
+#endif
+	if constexpr(L==2) return c17_rd_L2<V>(v,id,out);
+	else if constexpr(L==3) return c17_rd_L3<V>(v,id,out);
+	else if constexpr(L==4) return c17_rd_L4<V>(v,id,out);
 	else return -2;
-#	undef X
+}
+#if C17_FORM==2
+template<class V> static int wr(V& v,int id,int kind,const typename VT<V>::elem* rhs){
+	constexpr int L=VT<V>::len;
+	if constexpr(L==2) return c17_wr_L2<V>(v,id,kind,rhs);
+	else if constexpr(L==3) return c17_wr_L3<V>(v,id,kind,rhs);
+	else if constexpr(L==4) return c17_wr_L4<V>(v,id,kind,rhs);
+	else return -2;
 }
 #endif
 
@@ -172,7 +203,7 @@ template<class T,class V> static void check_read_T(const In& in,vf::Ctx& c){
 	c.cls(N==2?"2-letter":N==3?"3-letter":"4-letter");
 	if(r==-2){ c.fail("harness:id-not-generated",name,""); return; }
 	if(r==0){ c.fail(pre+name+":accessor-missing(does-not-compile)",std::string(name)+": no such accessor","accessor exists"); return; }
-	if(r==-1){ c.fail(pre+std::to_string(N)+"-letter:proxy-has-no-conversion-to-vec(read-does-not-compile)",std::string(name)+": swizzle proxy without operator()()","vec"+std::to_string(N)); return; }
+	if(r==-1){ c.fail(pre+std::to_string(N)+"-letter:read-does-not-compile",std::string(name)+": conversion of the swizzle proxy to vec"+std::to_string(N)+" is missing or ill-formed","vec"+std::to_string(N)); return; }
 	T want[4]; for(int i=0;i<N;i++) want[i]=src[idx[i]];
 	if(r!=N || memcmp(out,want,N*sizeof(T))!=0)
 		c.fail(pre+std::to_string(N)+"-letter:read:wrong-component",std::string(name)+" of "+showv(src,L)+" = "+showv(out,r>0?r:0),showv(want,N));
@@ -212,7 +243,7 @@ template<class T,class V> static void check_write_T(const In& in,vf::Ctx& c){
 	if(memcmp(got,want,L*sizeof(T))!=0){
 		bool named[4]={false,false,false,false}; for(int i=0;i<N;i++) named[idx[i]]=true;
 		bool other=false; for(int i=0;i<L;i++) if(!named[i] && memcmp(&got[i],&want[i],sizeof(T))!=0) other=true;
-		c.fail(pre+std::to_string(N)+"-letter:"+k+(other?":component-not-named-was-changed":":named-component-holds-wrong-value"),
+		c.fail(pre+(kind>=K_ALIAS_SET? std::string("full-permutation:right-hand-side-is-the-vector-itself"):std::to_string(N)+"-letter:"+k)+(other?":component-not-named-was-changed":":named-component-holds-wrong-value"),
 			std::string(name)+" "+k+" "+(kind>=K_ALIAS_SET? std::string("itself"):showv(rhs,kind==K_SCALAR?1:N))+" on "+showv(src,L)+" -> "+showv(got,L),showv(want,L));
 	}
 	// bytes behind the object (behind the storage, i.e. sizeof(V)) must be untouched
@@ -314,6 +345,7 @@ static void build_cases(std::vector<Case>& rd_cases,std::vector<Case>& wr_cases,
 			for(u32 id=0;id<C17_NNAMES;id++){
 				int idx[4]; int N=c17_decode(c17_names[id],idx); bool ok=N>0; for(int i=0;i<N;i++) if(idx[i]>=L) ok=false; if(!ok) continue;
 				if(C17_FORM==3 && !strchr("xyzw",c17_names[id][0])) continue;
+				if(!((C17_SMASK>>(id/336))&1)) continue;
 				rd_cases.push_back(Case{id,mkcode(L,Q,K_READ,0)});
 				rd_cases.push_back(Case{id,mkcode(L,Q,K_READ,1)});
 				if(C17_FORM==2 && c17_norepeat(idx,N)){
